@@ -1,3 +1,4 @@
+import MJ.Gen.Tables
 /-!
 # Model of `Value` ⇄ serde (C16)
 
@@ -637,11 +638,16 @@ def ovRemove : List (Nat × V) → Nat → Option V × List (Nat × V)
       let r := ovRemove rest h
       (r.1, (h', v') :: r.2)
 
+/-- `ValueHandleRegistry::insert`: the inline slot if the fast-path condition (regenerated from the
+source: `MJ.Gen.registryInsertFastPath`) holds, otherwise the inline entry spills into the map and the
+new entry goes into the map -/
 def Registry.insert (r : Registry) (h : Nat) (v : V) : Registry :=
-  match r.single, r.overflow with
-  | none, [] => { single := some (h, v), overflow := [] }
-  | none, ov => { single := none, overflow := ovInsert ov h v }
-  | some (h0, v0), ov => { single := none, overflow := ovInsert (ovInsert ov h0 v0) h v }
+  if MJ.Gen.registryInsertFastPath r.single.isNone r.overflow.isEmpty then
+    { single := some (h, v), overflow := r.overflow }
+  else
+    match r.single with
+    | some (h0, v0) => { single := none, overflow := ovInsert (ovInsert r.overflow h0 v0) h v }
+    | none => { single := none, overflow := ovInsert r.overflow h v }
 
 def Registry.remove (r : Registry) (h : Nat) : Option V × Registry :=
   match r.single with
@@ -653,6 +659,25 @@ def Registry.remove (r : Registry) (h : Nat) : Option V × Registry :=
   | none =>
     let x := ovRemove r.overflow h
     (x.1, { r with overflow := x.2 })
+
+/-! ### sequences of registry operations (for the refinement theorem and the differential run) -/
+
+/-- operations on the registry during serialisations -/
+inductive RegOp where
+  | ins (h : Nat) (v : V)
+  | rem (h : Nat)
+
+/-- the two-tier store: final registry and what each `remove` returned -/
+def runReg : List RegOp → Registry → Registry × List (Option V)
+  | [], r => (r, [])
+  | .ins h v :: ops, r => runReg ops (r.insert h v)
+  | .rem h :: ops, r =>
+    let x := r.remove h
+    let rest := runReg ops x.2
+    (rest.1, x.1 :: rest.2)
+
+/-- the registry a thread starts with -/
+def Registry.empty : Registry := { single := none, overflow := [] }
 
 structure HState where
   last : Nat           -- LAST_VALUE_HANDLE (u32, wrapping)
